@@ -293,9 +293,45 @@ Verdict run_case(Choices& c, CaseLog& log)
                     // look a little ahead along the direction
                     bool on_bnd = (k > 0
                                    && t.steps[k - 1]->action == boundary_action);
-                    geo::V3 xe = on_bnd ? geo::along(x, d, 64 * dl) : x;
-                    geo::Path pp = geo::locate(fix.model, xe, 8 * dl);
-                    if (!pp.ambiguous && !pp.overlap && !pp.nowhere
+                    geo::Path pp;
+                    bool judge = true;
+                    if (!on_bnd)
+                    {
+                        pp = geo::locate(fix.model, x, 8 * dl);
+                    }
+                    else
+                    {
+                        // march from a point just behind the boundary and take
+                        // the segment that starts at the boundary (a plain
+                        // look-ahead can overshoot a thin sliver volume)
+                        geo::LD back = 64 * dl;
+                        geo::V3 xb = geo::along(x, d, -back);
+                        geo::Path pb = geo::locate(fix.model, xb, 4 * dl);
+                        judge = !pb.ambiguous && !pb.overlap && !pb.nowhere
+                                && !pb.outside();
+                        if (judge)
+                        {
+                            bool trunc = false;
+                            auto segs = geo::trace(fix.model, xb, d, 4, &trunc);
+                            judge = false;
+                            for (size_t si = 0; si + 1 < segs.size(); ++si)
+                            {
+                                if (segs[si].end_lo - 2 * dl <= back
+                                    && back <= segs[si].end_hi + 2 * dl)
+                                {
+                                    auto const& nx = segs[si + 1];
+                                    if (nx.t1 - nx.t0 > 8 * dl
+                                        && !nx.path.overlap)
+                                    {
+                                        pp = nx.path;
+                                        judge = true;
+                                    }
+                                    break;
+                                }
+                            }
+                        }
+                    }
+                    if (judge && !pp.ambiguous && !pp.overlap && !pp.nowhere
                         && !pp.outside())
                     {
                         ++located;
@@ -308,7 +344,11 @@ Verdict run_case(Choices& c, CaseLog& log)
                               << s.pre.volume << " but the position ("
                               << s.pre.pos[0] << ", " << s.pre.pos[1] << ", "
                               << s.pre.pos[2] << ") lies in volume " << leaf
-                              << " (" << pp.str() << ")";
+                              << " (" << pp.str() << "); dir (" << s.pre.dir[0]
+                              << ", " << s.pre.dir[1] << ", " << s.pre.dir[2]
+                              << "), previous step action "
+                              << (k > 0 ? t.steps[k - 1]->action : -1)
+                              << (on_bnd ? " [looked ahead]" : "");
                             return log.fail(m.str());
                         }
                     }
